@@ -1,5 +1,7 @@
 use std::io::{self, Read, Write};
 
+#[cfg(feature = "async")]
+use bytes::Buf;
 use bytes::{BufMut, BytesMut};
 #[cfg(feature = "async")]
 use tokio::io::{AsyncRead, AsyncReadExt, AsyncWrite, AsyncWriteExt};
@@ -48,7 +50,7 @@ impl<IO> Connection<IO> {
         let mut recv_buf = BytesMut::zeroed(DEFAULT_BUFFER_CAPACITY);
         let mut total_read = 0;
 
-        let protocol_version = loop {
+        let (protocol_version, greeting_len) = loop {
             let (data, amount_read) = read_to_buffer(&mut io, &mut recv_buf, &mut total_read)?;
 
             if amount_read == 0 {
@@ -59,9 +61,9 @@ impl<IO> Connection<IO> {
             }
 
             match parser::greeting(data) {
-                Ok((_, version)) => {
+                Ok((remaining, version)) => {
                     info!(?version, "connected successfully");
-                    break Box::from(version);
+                    break (Box::from(version), data.len() - remaining.len());
                 }
                 Err(e) if e.is_incomplete() => {
                     // The response was valid *so far*, try another read
@@ -74,12 +76,15 @@ impl<IO> Connection<IO> {
             }
         };
 
+        // Keep whatever was received after the greeting for the first `receive`
+        recv_buf.copy_within(greeting_len..total_read, 0);
+
         Ok(Connection {
             io,
             protocol_version,
             field_cache: ResponseFieldCache::new(),
             recv_buf,
-            total_received: 0,
+            total_received: total_read - greeting_len,
         })
     }
 
@@ -293,7 +298,7 @@ impl<IO> AsyncConnection<IO> {
     {
         let mut recv_buf = BytesMut::with_capacity(DEFAULT_BUFFER_CAPACITY);
 
-        let protocol_version = loop {
+        let (protocol_version, greeting_len) = loop {
             let read = io.read_buf(&mut recv_buf).await?;
             trace!(read);
 
@@ -305,9 +310,9 @@ impl<IO> AsyncConnection<IO> {
             }
 
             match parser::greeting(&recv_buf) {
-                Ok((_, version)) => {
+                Ok((remaining, version)) => {
                     info!(?version, "connected successfully");
-                    break Box::from(version);
+                    break (Box::from(version), recv_buf.len() - remaining.len());
                 }
                 Err(e) if e.is_incomplete() => {
                     // The response was valid *so far*, try another read
@@ -320,7 +325,8 @@ impl<IO> AsyncConnection<IO> {
             }
         };
 
-        recv_buf.clear();
+        // Keep whatever was received after the greeting for the first `receive`
+        recv_buf.advance(greeting_len);
 
         Ok(AsyncConnection(Connection {
             io,
